@@ -87,6 +87,8 @@ def wrap(v, tag, shape=None):
         return np.int64(int(v))
     if tag == "t0":
         return torch.tensor(float(v), dtype=torch.float64)
+    if tag == "t0f32":
+        return torch.tensor(float(v), dtype=torch.float32)
     if tag == "t0i":
         return torch.tensor(int(v))
     if tag == "t1":
@@ -140,6 +142,34 @@ def override_kwargs(t, keys, extra, shape):
     return kw
 
 
+def apply_reassign(state, ra, types, shape):
+    """re-assign attributes of the per-cell state module (the object register_cell returns as unit.state) after
+    registration, as a user re-configuring a cell mid-run does; the forward passes read the state live"""
+    types = types or {}
+    for k, v in ra.items():
+        if k in ("lr_pos", "lr_neg", "tc_pos", "tc_neg"):
+            setattr(state, k, int(v) if types.get(k) == "int" else float(v))
+        elif k == "red":
+            state.batchreduce = RED[v]
+        elif k == "tolerance":
+            state.tolerance = float(v)
+        elif k == "inplace":
+            state.inplace = bool(v)
+        elif k in ("kernel_post", "kernel_pre"):
+            fn = {"kernel_post": functional.exp_stdp_post_kernel, "kernel_pre": functional.exp_stdp_pre_kernel}[k]
+            setattr(state, k, zero_kernel if v == "zero" else fn)
+        elif k in ("lr_post", "tc_post", "lr_pre", "tc_pre"):
+            side = "post" if k.endswith("post") else "pre"
+            name = "learning_rate" if k.startswith("lr") else "time_constant"
+            mod = getattr(state, f"kernel_{side}_tensor_kwargs")
+            if name in dict(mod.named_buffers()):          # tensor-valued: stored as a buffer of the state
+                setattr(mod, name, wrap(v, "t0", shape))
+            else:                                          # plain value: entry of the keyword dictionary
+                getattr(state, f"kernel_{side}_kwargs")[name] = wrap(v, types.get(k), shape)
+        else:
+            raise ValueError(k)
+
+
 def flat(t):
     return [fhex(v) for v in t.detach().to(torch.float64).reshape(-1).tolist()]
 
@@ -179,6 +209,9 @@ def run_cells(defaults, cells):
             for j, (case, (cs, conn, neu, layer)) in enumerate(zip(cells, built)):
                 st = case["steps"][k]
                 B = case["B"]
+                if st.get("reassign"):
+                    apply_reassign(tr.get_unit(f"c{j}").state, st["reassign"], st.get("reassign_types"),
+                                   tuple(conn.weight.shape))
                 if st.get("delay") is not None and conn.delay is not None:
                     with torch.no_grad():
                         conn.delay = torch.tensor(st["delay"], dtype=torch.float64).reshape(conn.delay.shape)
